@@ -454,7 +454,10 @@ def build_frame(af, layout=None, cls=None):
     _ROUTE_TICK[0] += 1
     k = 0
     if cls is sf.FrameGO and columns is not None and columns.depth == 1 and not af.get('columns_auto') and _ROUTE_TICK[0] % 2 == 0:
-        while k < len(layout) - 1 and k < 2 and list(layout[len(layout) - 1 - k]) == [1, 1]:
+        # (only columns whose dtype is the dtype of every other block are appended: TypeBlocks.append deliberately turns the row dtype
+        #  into object when dtypes differ, where construction in one go resolves them - recorded as C03-grown-row-dtype and probed there)
+        kinds = {a.dtype for a in arrays}
+        while len(kinds) == 1 and k < len(layout) - 1 and k < 2 and list(layout[len(layout) - 1 - k]) == [1, 1]:
             k += 1
     if k:
         labels = list(columns)
